@@ -660,8 +660,10 @@ func checkC19(e *core.Env) {
 		// that file, the override applies to the others
 		{
 			idx += 2
-			f1 := genProtoFile(r, idx-1, fmt.Sprintf("mp%d", batch), "mappedsrc")
-			f2 := genProtoFile(r, idx, fmt.Sprintf("mp%d", batch), "mappedsrc")
+			// proto file names may start with the option's own prefix letter
+			mdir := fmt.Sprintf("%s%d", []string{"Mp", "mp", "MM"}[batch%3], batch)
+			f1 := genProtoFile(r, idx-1, mdir, "mappedsrc")
+			f2 := genProtoFile(r, idx, mdir, "mappedsrc")
 			param := fmt.Sprintf("import_path=%s/ovr,M%s=%s/mapped;mapped,legacy_stubs", genModule, f1.Name, genModule)
 			req := &pluginpb.CodeGeneratorRequest{Parameter: proto.String(param), FileToGenerate: []string{f1.Name, f2.Name}, ProtoFile: []*descriptorpb.FileDescriptorProto{depDescriptor(), f1.FD, f2.FD}}
 			resp, stderr, rerr := runPlugin(bin, req)
